@@ -6,7 +6,7 @@ CONSTANT N
 VARIABLES n, S
 MCInit == /\ n \in 0 .. N /\ S \in SUBSET (0 .. (N - 1)) /\ \A x \in S : x < n
           /\ BigInit
-MCNext == UNCHANGED <<n, S, blen, ones, built>>
-MCSpec == MCInit /\ [][MCNext]_<<n, S, blen, ones, built>>
+MCNext == UNCHANGED <<n, S, blen, runs, built>>
+MCSpec == MCInit /\ [][MCNext]_<<n, S, blen, runs, built>>
 DefsOK == SmallDefsOK(n, S)
 =============================================================================
